@@ -214,4 +214,124 @@ theorem buildEls_rel (fs : FS) (j0 : Nat) : ∀ (els : List ElSpec) (j : Nat) (c
       simp only [relC, List.map_cons, relU] at this ⊢
       rw [← this]; congr 1; omega
 
+/-- the flow through elements depends on the file system only through the cache files of their caches -/
+theorem elsFlow_congr {fs1 fs2 : FS} : ∀ (els : List ElSpec) (f : Flow),
+    (∀ c, c ∈ cacheIds els → (fs1 c).final = (fs2 c).final) → elsFlow fs1 els f = elsFlow fs2 els f
+  | [], _, _ => rfl
+  | .map a r :: els, f, h => by
+    simp only [elsFlow]
+    exact elsFlow_congr els _ (fun c hc => h c (by simpa [cacheIds] using hc))
+  | .cache c rc :: els, f, h => by
+    have hc : (fs1 c).final = (fs2 c).final := h c (by simp [cacheIds])
+    have ih := fun g => elsFlow_congr (fs1 := fs1) (fs2 := fs2) els g (fun d hd => h d (by simp [cacheIds, hd]))
+    simp only [elsFlow, cacheExists, storedFlow, hc, ih]
+    rfl
+
+theorem mapFlow_length_le (a : Int) (r : Option Nat) (f : Flow) : (mapFlow a r f).vals.length ≤ f.vals.length := by
+  cases r with
+  | none => simp [mapFlow]
+  | some q =>
+    simp only [mapFlow]
+    split
+    · simp; omega
+    · simp
+
+/-- total length of the stored flows of the caches of a pipeline -/
+def storedLen (fs : FS) (els : List ElSpec) : Nat := ((cacheIds els).map (fun c => ((fs c).final.getD []).length)).sum
+
+theorem elsFlow_length_le (fs : FS) : ∀ (els : List ElSpec) (f : Flow),
+    (elsFlow fs els f).vals.length ≤ f.vals.length + storedLen fs els
+  | [], f => by simp [elsFlow, storedLen, cacheIds]
+  | .map a r :: els, f => by
+    have := elsFlow_length_le fs els (mapFlow a r f)
+    have := mapFlow_length_le a r f
+    simp only [elsFlow, storedLen, cacheIds] at *
+    omega
+  | .cache c rc :: els, f => by
+    simp only [elsFlow, storedLen, cacheIds, List.map_cons, List.sum_cons]
+    split
+    · have := elsFlow_length_le fs els (storedFlow fs c)
+      have hs : (storedFlow fs c).vals.length = ((fs c).final.getD []).length := by
+        unfold storedFlow; cases (fs c).final <;> simp
+      simp only [storedLen] at this
+      omega
+    · have := elsFlow_length_le fs els f
+      simp only [storedLen] at this
+      omega
+
+theorem foldl_add_eq (g : Nat → Nat) : ∀ (l : List Nat) (init : Nat),
+    l.foldl (fun n c => n + g c) init = init + (l.map g).sum
+  | [], _ => by simp
+  | c :: l, init => by simp [foldl_add_eq g l, Nat.add_assoc]
+
+/-- `islice(flow, None)`: the demand used for it exceeds the length of the outer flow -/
+theorem bigDemandOf_gt (fs : FS) (s : SrcSpec) (outer : List ElSpec) :
+    (pipeFlow fs s outer).vals.length < bigDemandOf fs s outer := by
+  have h1 := elsFlow_length_le fs outer (srcFlow s)
+  have h2 : (srcFlow s).vals.length ≤ s.vals.length := by
+    unfold srcFlow
+    cases s.raiseAt with
+    | none => simp
+    | some r => simp only; split <;> simp <;> omega
+  unfold bigDemandOf pipeFlow
+  rw [foldl_add_eq]
+  simp only [storedLen] at h1
+  omega
+
+/-- **one buffer holds the whole flow** (`bufsize=None`, or `b` larger than the outer flow): the loop of `Split.run`
+is: pull the outer chain to its end; if it raised, that is the end of the run and no cache file has changed;
+otherwise run the branch once, on the list of all outer values -/
+theorem splitLoop_whole (b j0 : Nat) (branch : List ElSpec) (fuel k : Nat) (fs : FS) (oc : Chain)
+    (ok : ChainOk fs oc) (hb : (rem fs oc).vals.length < b) (_hk : 0 < k) :
+    (∀ e, (rem fs oc).exc = some e →
+      (splitLoop b j0 branch (fuel + 2) k true fs oc).outs = [] ∧
+      (splitLoop b j0 branch (fuel + 2) k true fs oc).end_ = .raised e ∧
+      ∀ c, ((splitLoop b j0 branch (fuel + 2) k true fs oc).fs c).final = (fs c).final) ∧
+    ((rem fs oc).exc = none →
+      (splitLoop b j0 branch (fuel + 2) k true fs oc).outs =
+        (drive k (drive b fs oc).fs (buildEls (drive b fs oc).fs j0 branch ⟨[], freshSrc ⟨(rem fs oc).vals, none⟩⟩)).outs ∧
+      (splitLoop b j0 branch (fuel + 2) k true fs oc).end_ =
+        (drive k (drive b fs oc).fs (buildEls (drive b fs oc).fs j0 branch ⟨[], freshSrc ⟨(rem fs oc).vals, none⟩⟩)).end_ ∧
+      (splitLoop b j0 branch (fuel + 2) k true fs oc).fs =
+        (drive k (drive b fs oc).fs (buildEls (drive b fs oc).fs j0 branch ⟨[], freshSrc ⟨(rem fs oc).vals, none⟩⟩)).fs) := by
+  obtain ⟨h1, _, _, _, _, h6, h7⟩ := drive_spec b fs oc ok
+  have hbuf : (drive b fs oc).outs.map (·.1) = (rem fs oc).vals := by
+    rw [h1, List.take_of_length_le (by omega)]
+  constructor
+  · intro e he
+    obtain ⟨hend, hfin⟩ := h7 e hb he
+    simp only [splitLoop, hend]
+    exact ⟨trivial, trivial, hfin⟩
+  · intro he
+    obtain ⟨hend, _⟩ := h6 hb he
+    have hdead := drive_exhausted_topDead b fs oc hend
+    simp only [splitLoop, hend, hbuf]
+    generalize hd : drive k (drive b fs oc).fs
+      (buildEls (drive b fs oc).fs j0 branch ⟨[], freshSrc ⟨(rem fs oc).vals, none⟩⟩) = d
+    simp only [Bool.not_true, Bool.and_false, Bool.false_eq_true, if_false]
+    cases hde : d.end_ with
+    | stopped => simp
+    | raised e => simp
+    | exhausted =>
+      simp only
+      by_cases hempty : (rem fs oc).vals.isEmpty = true
+      · simp [hempty]
+      · simp only [hempty, Bool.false_eq_true, if_false]
+        -- the next buffer: the outer chain is finished
+        obtain ⟨b', rfl⟩ : ∃ b', b = b' + 1 := ⟨b - 1, by omega⟩
+        simp [drive_topDead b' d.fs _ hdead]
+
+theorem mem_cacheIds_of_mem {d : Nat} {rd : Bool} : ∀ {els : List ElSpec}, ElSpec.cache d rd ∈ els → d ∈ cacheIds els
+  | [], h => by simp at h
+  | .map _ _ :: els, h => by
+    simp only [List.mem_cons] at h
+    rcases h with h | h
+    · cases h
+    · exact mem_cacheIds_of_mem (els := els) h
+  | .cache c rc :: els, h => by
+    simp only [List.mem_cons, ElSpec.cache.injEq] at h
+    rcases h with ⟨rfl, _⟩ | h
+    · simp [cacheIds]
+    · simp [cacheIds, mem_cacheIds_of_mem (els := els) h]
+
 end Lena.C18
